@@ -187,6 +187,27 @@ class Interp:
             return self.oracle(k, t, self)
         raise Unknown("expression kind " + k)
 
+    def _sub_ctor(self, x, depth=0):
+        tu = getattr(self.oracle, "tu", None)
+        if tu is None or not isinstance(x, list) or x[:1] != ["ctor"] or depth > 3:
+            return
+        sub = tu.fns.get(x[1])
+        if sub is None or not sub.has_body or sub.id == self.fn.id:
+            return
+        vals = {}
+        for i, a in enumerate(x[3]):
+            try:
+                vals[i] = self.ev(a)
+            except Unknown:
+                pass
+        mk = getattr(self.oracle, "with_params", None)
+        if mk is None:
+            return
+        child = Interp(sub, mk(vals), effects=self.effects)
+        child._depth = depth + 1
+        child.run()
+        self.steps += child.steps
+
     @staticmethod
     def truth(v):
         if isinstance(v, tuple):
@@ -307,6 +328,10 @@ class Interp:
                     return ("throw", e.get("type", "rethrow"))
                 elif k == "init" and "field" in e:
                     self.effects.append(("store", ("member", e["field"], "['this']"), self.ev(e["x"])))
+                elif k == "init" and (e.get("delegating") or "base" in e):
+                    # a delegating / base-class constructor initialises (part of) this very object: when the oracle
+                    # knows the unit, that constructor is interpreted with the arguments given and its stores are ours
+                    self._sub_ctor(e.get("x"))
                 # calls as statements are evaluated when they are the root of an expression statement;
                 # sub-expressions are evaluated through their parents.  We only record effects of calls
                 # that the oracle flags as effectful.
